@@ -32,7 +32,7 @@ SimpStep == /\ mode = "simp" /\ SimpSteps(STRAT, g) # {}
 Begin == /\ mode = "simp" /\ Quiescent(STRAT, g) /\ mode' = "prepare" /\ gadgets' = InitGadgets(g)
          /\ UNCHANGED <<c0, g, c, fr, u0>>
 DoPrepare == /\ mode = "prepare"
-             /\ LET st == Prepare(g, c) IN
+             /\ \E st \in PrepareSet(g, c) :
                 /\ g' = st.g /\ c' = st.c /\ fr' = st.fr
                 /\ mode' = IF st.err THEN "error" ELSE IF st.fr = <<>> THEN "perm" ELSE "gadget"
              /\ UNCHANGED <<c0, gadgets, u0>>
@@ -43,21 +43,25 @@ DoGadget == /\ mode = "gadget"
                       THEN g' = ApplyGenPivot(g, p[1], p[2]).g /\ gadgets' = gadgets \ {p[2]} /\ mode' = "prepare"
                       ELSE mode' = "error" /\ UNCHANGED <<g, gadgets>>
             /\ UNCHANGED <<c0, c, fr, u0>>
-RECURSIVE ExtractAll(_, _)
-ExtractAll(h, vs) == IF vs = <<>> THEN h
-                     ELSE IF Exists(h, Head(vs)) /\ CheckRemId(h, Head(vs)) THEN ExtractAll(ApplyRemId(h, Head(vs)).g, Tail(vs))
-                     ELSE ExtractAll(h, Tail(vs))
 DoExtract(from, orElse) ==
   /\ mode = from
   /\ LET h == ExtractAll(g, [i \in 1..Len(fr) |-> fr[i][2]]) IN
      /\ g' = h /\ mode' = IF h # g THEN "prepare" ELSE orElse
   /\ UNCHANGED <<c0, c, fr, gadgets, u0>>
 DoGauss == /\ mode = "gauss"
-           /\ IF GAUSS = "none" THEN UNCHANGED <<g, c>>
+           /\ IF GAUSS = "none" THEN UNCHANGED <<g, c>> /\ mode' = "extract2"
+              ELSE IF GAUSS \in {"single", "single_code"} THEN
+                   LET cols == FNbrs(g, fr)
+                       M == Biadj(g, fr, cols)
+                       ch == IF GAUSS = "single" THEN SlnChoices(M) ELSE SlnCodeChoice(M)
+                   IN IF ch = {} THEN mode' = "error" /\ UNCHANGED <<g, c>>          \* no extractable row: the diagram has no gflow
+                      ELSE /\ mode' = "extract2"
+                           /\ \E x \in ch : LET ops == SlnOps(x[2], x[3]) IN
+                                g' = SetBiadj(g, fr, cols, ApplyOps(M, ops)) /\ c' = PushOps(c, fr, ops)
               ELSE LET cols == FNbrs(g, fr)
                        r == GJ(Biadj(g, fr, cols), <<>>, 1, 1)
-                   IN g' = SetBiadj(g, fr, cols, r.m) /\ c' = PushOps(c, fr, r.ops)
-           /\ mode' = "extract2" /\ UNCHANGED <<c0, fr, gadgets, u0>>
+                   IN g' = SetBiadj(g, fr, cols, r.m) /\ c' = PushOps(c, fr, r.ops) /\ mode' = "extract2"
+           /\ UNCHANGED <<c0, fr, gadgets, u0>>
 DoPerm == /\ mode = "perm"
           /\ IF ~IsWires(g) THEN mode' = "error" /\ UNCHANGED <<g, c>>
              ELSE LET p == WirePerm(g)
